@@ -201,6 +201,33 @@ func ruleC03Partition(c *Ctx) {
 		}
 	})
 	c.Check(okK, "c03.key-equality", key+"/key-of-row", c.P.Pos(f.Pos()), "the row's key map holds reader(row, k) for every grouping key k", whyK)
+	// ... for EVERY grouping key: inside the loop over the keys the store depends on nothing but the loop's own test and
+	// the reader's error -- a key left out under a condition (a NULL value, say) is a key the membership loop never compares
+	if keyMapUpd != nil {
+		whyE := ""
+		if kx, ok := keyMapUpd.Key.(*ssa.Extract); ok {
+			if nx, ok := kx.Tuple.(*ssa.Next); ok {
+				for _, fc := range factsAt(keyMapUpd.Block()) {
+					ci, isI := fc.cond.(ssa.Instruction)
+					if !isI || ci.Block() == nil || !(ci.Block() == nx.Block() || nx.Block().Dominates(ci.Block())) {
+						continue
+					}
+					if ex, isEx := fc.cond.(*ssa.Extract); isEx && ex.Tuple == ssa.Value(nx) && ex.Index == 0 {
+						continue
+					}
+					ct := tbd.Of(fc.cond)
+					if x, isNil := isNilTest(ct); isNil && isErrorType(x) {
+						continue
+					}
+					if ct.Op == "bin" && ct.Name == "!=" && len(ct.Args) == 2 && (isErrorType(ct.Args[0]) || isErrorType(ct.Args[1])) {
+						continue
+					}
+					whyE = "the store of a grouping key into the row's key map depends on " + ct.String() + ": a key for which it does not hold is left out and never compared (a row with a NULL key joins the first group that agrees on the other keys)"
+				}
+			}
+		}
+		c.Check(whyE == "", "c03.key-equality", key+"/every-key-stored", c.P.Pos(keyMapUpd.Pos()), "the key-map store is unconditional inside the loop over the grouping keys", whyE)
+	}
 	// membership comparison: lookup(*group, k) != v with (k, v) ranging over the row's key map
 	okM, whyM := false, "no comparison of the candidate group's value with the row's value for the same key, over all keys of the row's key map"
 	memberFn, memberTB := f, tbd // where the membership comparison lives: the grouping function or a helper extracted from it
